@@ -72,13 +72,16 @@ class FixedPointMult(Logic):
         b = self.addIn('b', b)
         r = self.addOut('r', r)
         
-        sa = self.wire('sa', a.getWidth()+b.getWidth())
-        sb = self.wire('sb', a.getWidth()+b.getWidth())
+        # the product is sign extended up to the highest bit that the result takes
+        mw = max(a.getWidth()+b.getWidth(), af[2]+bf[2]-rf[2]+r.getWidth()+1)
+        
+        sa = self.wire('sa', mw)
+        sb = self.wire('sb', mw)
         
         SignExtend(self, 'sa', a, sa)
         SignExtend(self, 'sb', b, sb)
                 
-        m = self.wire('m', a.getWidth()+b.getWidth())
+        m = self.wire('m', mw)
         Mul(self, 'm', sa, sb, m)
         
         # Range(self, 'r', m, r.getWidth()+rf[2], rf[2], r)
